@@ -70,6 +70,15 @@ func c20Menu(vals []uint64) [][]c20Req {
 		}
 		m = append(m, []c20Req{{Kind: "conf", A: a}}, []c20Req{{Kind: "min", A: a}})
 	}
+	// two kinds of request in one block: every pair of values of different kinds (a leftover of one
+	// kind's processing must not leak into the other's)
+	for _, a := range vals {
+		for _, b := range vals {
+			m = append(m, []c20Req{{Kind: "conf", A: a}, {Kind: "min", A: b}})
+			m = append(m, []c20Req{{Kind: "tax", A: a, B: b}, {Kind: "min", A: b}})
+			m = append(m, []c20Req{{Kind: "tax", A: a, B: b}, {Kind: "conf", A: a}})
+		}
+	}
 	// several requests in one block
 	m = append(m,
 		[]c20Req{{Kind: "tax", A: 9999, B: 1}, {Kind: "tax", A: 10000, B: 0}},
@@ -94,7 +103,7 @@ func safe(s pState) string {
 }
 
 func runC20(r *mc.Run) {
-	r.Rule = "BFS to fixpoint over bridge parameter states (rate, cap, confirmations, minimum) from three safe genesis corners under DepositTax/Confirmation/MinDeposit requests over a 12-value 64-bit alphabet (plus multi-request lists), each applied by the real ProcessBridgeRequest; in every reachable state deposits of 8 values go through the real MsgNewDeposits handler; oracle = bounds invariant, targeted parameter unchanged by out-of-range requests, 0 <= tax < value, amount > 0, value >= minimum > dust"
+	r.Rule = "BFS to fixpoint over bridge parameter states (rate, cap, confirmations, minimum) from three safe genesis corners under DepositTax/Confirmation/MinDeposit requests over a 12-value 64-bit alphabet (single requests, every pair of values of two different kinds in one request list, and further multi-request lists), each applied by the real ProcessBridgeRequest; in every reachable state deposits of 8 values go through the real MsgNewDeposits handler; oracle = bounds invariant, targeted parameter unchanged by out-of-range requests, 0 <= tax < value, amount > 0, value >= minimum > dust"
 	r.Assumptions = []string{"parameter states are materialised by writing Params on a branch (the handler reads nothing else)", "dust limit fixed at 1000 satoshi in the oracle"}
 	vals := c20V
 	if r.Thorough() {
